@@ -51,13 +51,8 @@ psf_store_string (SF_PRIVATE *psf, int str_type, const char *str)
 
 	/* Find the next free slot in table. */
 	for (k = 0 ; k < SF_MAX_STRINGS ; k++)
-	{	/* If we find a matching entry clear it. */
-		if (psf->strings.data [k].type == str_type)
-			psf->strings.data [k].type = -1 ;
-
 		if (psf->strings.data [k].type == 0)
 			break ;
-		} ;
 
 	/* Determine flags */
 	str_flags = SF_STR_LOCATE_START ;
@@ -80,10 +75,6 @@ psf_store_string (SF_PRIVATE *psf, int str_type, const char *str)
 	{	psf_log_printf (psf, "SFE_STR_WEIRD : k != 0 && psf->strings.storage_used == 0\n") ;
 		return SFE_STR_WEIRD ;
 		} ;
-
-	/* Special case for the first string. */
-	if (k == 0)
-		psf->strings.storage_used = 0 ;
 
 	switch (str_type)
 	{	case SF_STR_SOFTWARE :
@@ -141,6 +132,15 @@ psf_store_string (SF_PRIVATE *psf, int str_type, const char *str)
 
 		psf->strings.storage_len = newlen ;
 		} ;
+
+	/* Special case for the first string. */
+	if (k == 0)
+		psf->strings.storage_used = 0 ;
+
+	/* Everything checked : clear any existing entry of this type, then store the new one. */
+	for (int j = 0 ; j < k ; j++)
+		if (psf->strings.data [j].type == str_type)
+			psf->strings.data [j].type = -1 ;
 
 	psf->strings.data [k].type = str_type ;
 	psf->strings.data [k].offset = psf->strings.storage_used ;
